@@ -439,6 +439,7 @@ def _run_clients(plan: dict, sim: sched.Sim, ch: sched.Chooser, dep: deploy.Depl
     verdict: list[tuple[str, str]] = []
     observed_gone: set = set()  # (client, study id) for which the client itself got KeyError
     own_delete_failed: set = set()  # (client, study id): its own delete_study raised KeyError
+    created_by: dict[int, str] = {}  # study id -> client whose create_new_study returned it last
     cur_phase: dict[str, int] = {}
     # phase barriers of scenario plans: an op of phase p starts when all ops of phases < p are done
     phase_total: dict[int, int] = {}
@@ -499,7 +500,12 @@ def _run_clients(plan: dict, sim: sched.Sim, ch: sched.Chooser, dep: deploy.Depl
             # backend: after its own (failed) attempt nothing of the old study may be left
             tag = "stale-after-own-delete-attempt"
 
-        def bad(what: str, detail: str) -> None:
+        def bad(what: str, detail: str, tag: str = tag) -> None:
+            if tag == "stale-after-foreign-delete" and what == "get_all_trials" and kinds[name] == "cached" and created_by.get(sid) == name:
+                # the client created this study itself (after the foreign delete):
+                # _CachedStorage.create_new_study starts the id's cache entry afresh, so the
+                # trial list of the new study cannot be the documented leftover of the old one
+                tag = "stale-after-own-create"
             if not verdict:
                 verdict.append((prefix + "%s|%s|%s" % (kinds[name], tag, what), "%s (%s) read of study %s: %s\n  recent ops:\n    %s" % (name, kinds[name], sh, detail, "\n    ".join(trace[-14:]))))
 
@@ -641,6 +647,8 @@ def _run_clients(plan: dict, sim: sched.Sim, ch: sched.Chooser, dep: deploy.Depl
                         return
                     if res[0] == "ok" and op["op"] in ("create_new_study", "create_new_trial"):
                         env.real[op["as"]] = res[1][1]
+                    if res[0] == "ok" and op["op"] == "create_new_study":
+                        created_by[res[1][1]] = name
                     if res[0] == "ok" and op["op"] == "delete_study":
                         deleted_by[op["study"]] = name
                     if res[0] == "err" and res[1] == "KeyError" and op["op"] == "delete_study" and env.real.get(op["study"]) is not None:
